@@ -144,6 +144,41 @@ def _run():
     if scal not in (0, 2) or unset not in (0, 2):
         die("import_instance: a primitive-parameter conversion is applied in one primitive branch only")
 
+    # ---- the state the importer keeps between instances: attributes of `self` assigned anywhere in ProtoImporter, and
+    #      anything in importing.py that could remember an earlier call (decorators, module-level containers)
+    pcls = find_class(im, "ProtoImporter")
+    state = set()
+    for n in ast.walk(pcls):
+        tgts = []
+        if isinstance(n, ast.Assign):
+            tgts = n.targets
+        elif isinstance(n, (ast.AugAssign, ast.AnnAssign)):
+            tgts = [n.target]
+        for t in tgts:
+            for q in ast.walk(t):
+                if isinstance(q, ast.Attribute) and isinstance(q.value, ast.Name) and q.value.id == "self" and isinstance(q.ctx, ast.Store):
+                    state.add(q.attr)
+        if isinstance(n, ast.Call) and getattr(n.func, "id", None) == "setattr" and n.args and getattr(n.args[0], "id", None) == "self":
+            die("ProtoImporter: setattr(self, ...) - cannot enumerate the importer's state")
+        if isinstance(n, (ast.Global, ast.Nonlocal)):
+            die("ProtoImporter: global / nonlocal statement - cannot enumerate the importer's state")
+    live_state = set(vars(IM.ProtoImporter(vckt.Package())))
+    if not live_state <= state:
+        die(f"ProtoImporter: live attributes {sorted(live_state)} not all found in the source {sorted(state)}")
+    memo = []
+    for n in ast.walk(im):
+        if isinstance(n, (ast.FunctionDef, ast.ClassDef)):
+            memo += ["decorator:" + ast.unparse(d) for d in n.decorator_list]
+    for st_ in im.body:
+        if isinstance(st_, (ast.Assign, ast.AnnAssign)) and st_.value is not None and \
+                isinstance(st_.value, (ast.Dict, ast.List, ast.Set, ast.Call, ast.DictComp, ast.ListComp, ast.SetComp)):
+            memo.append("global:" + ast.unparse(st_.targets[0] if isinstance(st_, ast.Assign) else st_.target))
+    for n in ast.walk(im):
+        if isinstance(n, ast.FunctionDef):
+            for dflt in n.args.defaults + [d for d in n.args.kw_defaults if d is not None]:
+                if isinstance(dflt, (ast.Dict, ast.List, ast.Set, ast.Call)):
+                    memo.append(f"mutable-default:{n.name}")
+
     # ---- primitive parameter classes
     Scalar = h.Scalar
     prim_fields, enums = [], {}
@@ -200,6 +235,8 @@ def _run():
     body += f"Definition ext_import_spicetype : bool := {_bool(imp_reads)}.\n"
     body += f"Definition import_scalar_literals : bool := {_bool(scal == 2)}.\n"
     body += f"Definition import_unset_none : bool := {_bool(unset == 2)}.\n"
+    body += "Definition importer_state : list string := [" + "; ".join(map(cstr, sorted(state))) + "].  (* self.<attr> assigned in ProtoImporter *)\n"
+    body += "Definition importer_memo : list string := [" + "; ".join(map(cstr, sorted(memo))) + "].  (* decorators, module-level containers, mutable defaults in importing.py *)\n"
     body += "Definition siprefix_names : list string := [" + "; ".join(map(cstr, siprefixes)) + "].\n"
     body += ("Definition prim_fields : list (string * string * list (string * string * bool * bool)) :=  "
              "(* primitive, type, fields: name, kind, admits None, has default *)\n  [" + ";\n   ".join(
